@@ -17,6 +17,7 @@ import (
 	"go/constant"
 	"go/token"
 	"go/types"
+	"sort"
 	"strings"
 )
 
@@ -540,6 +541,63 @@ func checkC19(p *Prog, r *Report) {
 		r.Ob("BD-every-layer", p.Pos(ifi.Decl.Pos()), okBD, detBD)
 	}
 	r.Ob("class-constants", "-", okConst && nconst >= 5, fmt.Sprintf("%d bulk-density class constants %v, all inside [0.8, 2.2]: %v (measured values from the soil file are assumed admissible)", nconst, vals, okConst))
+	// the horizon's bulk density is the class constant or the soil file's measured number as parsed: no routine of the
+	// package computes with it before it reaches the layers (a "corrected" density leaves the proved box)
+	{
+		nB, bad := 0, []string{}
+		for _, fi := range p.Funcs {
+			if fi.Pkg != p.Hermes || fi.Decl.Body == nil {
+				continue
+			}
+			info := fi.Pkg.TypesInfo
+			ast.Inspect(fi.Decl.Body, func(n ast.Node) bool {
+				as, ok := n.(*ast.AssignStmt)
+				if !ok {
+					return true
+				}
+				for k, l := range as.Lhs {
+					ix, ok := l.(*ast.IndexExpr)
+					if !ok {
+						continue
+					}
+					se, ok := ix.X.(*ast.SelectorExpr)
+					if !ok || se.Sel.Name != "BULK" {
+						continue
+					}
+					if sel, ok := info.Selections[se]; !ok || sel.Kind() != types.FieldVal {
+						continue
+					}
+					nB++
+					okRhs := as.Tok == token.ASSIGN && len(as.Rhs) == len(as.Lhs)
+					if okRhs {
+						rhs := ast.Unparen(as.Rhs[k])
+						if tv, has := info.Types[rhs]; has && tv.Value != nil {
+							// class constant
+						} else if c, isCall := rhs.(*ast.CallExpr); isCall {
+							name := ""
+							switch f := c.Fun.(type) {
+							case *ast.Ident:
+								name = f.Name
+							case *ast.SelectorExpr:
+								name = f.Sel.Name
+							}
+							if name != "ValAsFloat" && name != "TryValAsFloat" && name != "ParseFloat" {
+								okRhs = false
+							}
+						} else {
+							okRhs = false
+						}
+					}
+					if !okRhs {
+						bad = append(bad, fmt.Sprintf("%s in %s", p.Pos(as.Pos()), short(fi.Key)))
+					}
+				}
+				return true
+			})
+		}
+		sort.Strings(bad)
+		r.Ob("BULK-source", "-", nB >= 6 && len(bad) == 0, fmt.Sprintf("%d stores of a horizon's bulk density in the package; each stores a class constant or the parsed number of the soil file; others: %v", nB, bad))
+	}
 	// the measured bulk density of the csv soil layout is the column of that exact name (shared with C13.headers)
 	c13Headers(p, r, "C19.O5b")
 	// ---------------------------------------------------------------- O6
